@@ -46,6 +46,20 @@ fn number(doc: &xml_dom::XmlDocument, expr: &str, ns: &[(String, String)]) -> Op
     }
 }
 
+/// does the value of the node-set expression depend on the context node it is evaluated in? (absolute paths, filter
+/// expressions over such, and unions of such do not)
+fn is_context_free(e: &vp_xref::Expr) -> bool {
+    match e {
+        vp_xref::Expr::Path(p) => match &p.start {
+            vp_xref::PathStart::Root => true,
+            vp_xref::PathStart::Context => false,
+            vp_xref::PathStart::Filter(inner, _) => is_context_free(inner),
+        },
+        vp_xref::Expr::Bin(vp_xref::BinOp::Union, x, y) => is_context_free(x) && is_context_free(y),
+        _ => false,
+    }
+}
+
 fn sorted_union(a: &Pos, b: &Pos) -> Pos {
     let mut v: Pos = a.iter().chain(b.iter()).cloned().collect();
     v.sort();
@@ -242,6 +256,38 @@ impl Property for C07 {
                     fail!("c07.sub-expression-node-set-differs".to_string(), format!("{} = {} (expected {}): A has {} members at top level: {:?}", q, got, want, na, ra));
                 }
                 obs.label("sub-expression-probe");
+            }
+        }
+        // positional filters on a parenthesised set count in document order wherever they are written - also inside the
+        // predicate of a reverse-axis step. For an absolute A the filter's value does not depend on the context node, so a
+        // fingerprint of the selected nodes (how many nodes precede them, how many ancestors they have, how many they are)
+        // taken at top level must be met in every context of such a step.
+        let context_free = vp_xref::parse(a).map(|e| is_context_free(&e)).unwrap_or(false);
+        if na >= 2 {
+            for sel in [format!("({})[{}]", a, k), format!("({})[last()]", a), format!("({})[position()<={}]", a, k), format!("({})[1]", a)] {
+                let f = format!("count(({0})/preceding::node()) + 1000 * count(({0})/ancestor::node()) + 1000000 * count({0})", sel);
+                let v = match number(&doc, &f, &ns) {
+                    Some(v) if v.is_finite() => v,
+                    _ => continue,
+                };
+                // (a context-dependent A is asked only where the context is the root node again, as at top level)
+                let wrappers: &[&str] = if context_free {
+                    &["/*/ancestor::node()", "/*/ancestor-or-self::node()", "(//node())[last()]/ancestor-or-self::node()", "(//node())[last()]/preceding::node()", "(//node())[last()]/preceding-sibling::node()", "//*[1]"]
+                } else {
+                    &["/*/ancestor::node()", "/*/ancestor-or-self::node()[last()]", "/*/preceding::node()/.. | /*/ancestor::node()"]
+                };
+                for w in wrappers.iter() {
+                    let all = number(&doc, &format!("count({})", w), &ns);
+                    let met = number(&doc, &format!("count({}[{} = {}])", w, f, v as u64), &ns);
+                    if let (Some(all), Some(met)) = (all, met) {
+                        if all > 0.0 {
+                            obs.label("filter-inside-reverse-step-predicate");
+                        }
+                        if all != met {
+                            fail!("c07.positional-filter-depends-on-enclosing-step".to_string(), format!("{} selects nodes with fingerprint {} at top level, but inside the predicate of {} only {} of {} context nodes see the same selection", sel, v, w, met, all));
+                        }
+                    }
+                }
             }
         }
         Verdict::Pass
